@@ -194,8 +194,8 @@ def run_impl(case, record=False):
             return ps, rec, None
         ps = o.get_next_passes(t0, int(case["length"]), lon, lat, alt, horizon=case["horizon"])
         return ps, None, None
-    except Exception as e:  # noqa  refusals (decay, deep space) are C13's subject
-        return None, None, "%s: %s" % (type(e).__name__, str(e)[:120])
+    except Exception as e:  # noqa
+        return None, None, "%s: %s" % (type(e).__name__, str(e)[:160])
 
 
 # ------------------------------------------------------------------------------------------------ generators
@@ -381,10 +381,10 @@ def parse_model(out):
     passes = []
     while i < len(toks):
         assert toks[i] == "P"
-        rise, fall, mid, lo, hi, culm = toks[i + 1:i + 7]
+        rise, fall, mid, lo, hi, culm, s0, s1 = toks[i + 1:i + 9]
         passes.append({"rise": lib.h2f(rise), "fall": lib.h2f(fall), "middle": int(mid), "lo": lib.h2f(lo), "hi": lib.h2f(hi),
-                       "culm": lib.h2f(culm), "lo_bits": lo, "hi_bits": hi})
-        i += 7
+                       "culm": lib.h2f(culm), "lo_bits": lo, "hi_bits": hi, "int_start": int(s0), "int_end": int(s1)})
+        i += 9
     return zcs, passes
 
 
@@ -418,6 +418,10 @@ def compare_case(ctx, case, ps, rec, mout):
                 diffs.append(("pass %d maximiser bracket" % i, [float(m["lo"]), float(m["hi"])], [q["lo"], q["hi"]]))
             if m["middle"] is not None and int(m["middle"]) != q["middle"]:
                 diffs.append(("pass %d middle" % i, int(m["middle"]), q["middle"]))
+            if m["int_start"] is not None and m["int_end"] is not None and \
+                    (int(m["int_start"]), int(m["int_end"])) != (q["int_start"], q["int_end"]):
+                diffs.append(("pass %d (int_start, int_end)" % i, [int(m["int_start"]), int(m["int_end"])],
+                              [q["int_start"], q["int_end"]]))
             if m["middle"] is None:
                 ctx.count("middle_not_observable")
     return diffs, zcs, mp
@@ -490,9 +494,15 @@ def correspond(ctx):
     plines, pexp = [], []
     for case in cases:
         ps, rec, err = run_impl(case, record=True)
+        if err and case["kind"] == "exact_zero" and "different signs" in err:
+            # part of the exact-zero defect: elev[k] == 0.0 on the array path, but the scalar re-evaluation handed to
+            # brentq differs in the last bit and has the sign of the neighbouring sample: brentq's precondition fails
+            ctx.count("corr_exact_zero_brentq_refused")
+            continue
         if err:
-            ctx.count("corr_refused")
-            ctx.bump("refusals", err.split(":")[0])
+            # the case is in the domain (the propagator answers at every minute of the window): an exception is not a refusal
+            ctx.count("eval_corr_cases")
+            ctx.disagree("c03-raised", case, err, "a pass list (the model has no exception path for in-domain input)")
             continue
         if rec.samples is None:
             ctx.disagree("c03", case, "per-minute elevation samples not observable (get_observer_look not called with "
@@ -613,7 +623,7 @@ def judge(case, ps=None):
     if ps is None:
         ps, _, err = run_impl(case)
         if err:
-            return None, {"refused": err}
+            return [("raised", err, "a list of passes")], {"raised": err}
     viol = []
     meta = []
     el, truth = truth_intervals(o, t0, total_s, obs, horizon)
@@ -681,7 +691,9 @@ def _run_oracle(ctx, cases, label):
     for case in cases:
         ps, _, err = run_impl(case)
         if err:
-            ctx.count("oracle_refused")
+            ctx.count("eval_oracle_cases")
+            ctx.violation("raised", case, err, "a list of passes (the propagator answers at every whole minute of the window)",
+                          site="Orbital.get_next_passes")
             continue
         viol, st = judge(case, ps)
         ctx.count("eval_oracle_cases")
@@ -750,7 +762,7 @@ def zero_regime_enabled():
 def match_known(entry, v):
     m = entry.get("match") or {}
     if m.get("kind") == "exact_zero_sample":
-        return v["case"].get("kind") == "exact_zero" and v["kind"] in ("ordering", "not_disjoint")
+        return v["case"].get("kind") == "exact_zero" and v["kind"] in ("ordering", "not_disjoint", "raised")
     if m.get("kind") == "culmination_off":
         # culmination of a short, sharply peaked pass: the maximiser's bracket is [rise, fall]
         return (v["kind"] == "culmination_off" and v.get("site") == "_get_max_parab"
@@ -791,9 +803,6 @@ def replay(ctx, payload):
         return 1 if still else 0
     case = payload.get("input", payload)
     viol, st = judge(case)
-    if viol is None:
-        print("refused:", st)
-        return 0
     for (kind, observed, required) in viol:
         print("VIOLATES %s: %s; required: %s" % (kind, observed, required))
     print("stats:", st)
